@@ -42,3 +42,50 @@ PROPS["C16"] = dict(
 )
 LEVEL_TEXT["C16"] = "Exhaustive enumeration of graph set-ups over a dense grid of key counts (every small n, every regime boundary, geometric grid to 10^12) times a cross product of extreme signature words, checking the six arithmetic relations of the property on each; the edge computation is pure integer arithmetic whose only branches depend on n-regime and on field extremes, which the grids hit."
 TECHNIQUE["C16"] = "bounded-exhaustive enumeration of configurations x boundary-value signature grid against the arithmetic specification"
+
+MC_NOTE = "E2: each transition applies the operation to the real object (rebuilt from the state's raw parts) and to the model; so every model transition is validated against the implementation and traces_validated_against_impl = transitions. States are deduplicated per BFS unit (seed x first operation) on (backing words incl. stale bits, len, width); 'states' sums the per-unit distinct states."
+
+PROPS["C06"] = dict(
+    level="model_checking",
+    engine="E2",
+    parts=[dict(bin="e2_bitvec", opts={"prop": "C06"}, tag="clean")],
+    rule="BFS over operation histories from clean seeds; unit = (seed, first operation); a unit is non-trivial when its start state has a partially used last word or spare words",
+    alphabet="push(b) pop set(i,b) i in {0,1,62,63,64,65,127,len/2,len-1} resize(n,b) n in {0,1,63,64,65,129} fill flip reset par_fill par_flip par_reset extend([1,0,1]) to_owned; set through Box, &mut [usize], AtomicBitVec (Vec and Box) set/swap, atomic fill/flip/reset and par_ variants; seeds new/with_value/with_capacity/collect/bit_vec! forms at lengths {0,1,63,64,65,128}",
+    bound={"quick": "all histories of <= 4 operations from every seed", "thorough": "all histories of <= 6 operations, lengths also 2,127,129"},
+    oracle="in every state: len, get, Index, iter, (&b).into_iter, iter_ones, iter_zeros, count_ones/zeros, par_count_ones, ==/!= against fresh equal / one-bit-different / different-only-beyond-len / longer vectors, to_owned, AtomicBitVec get/Index/count_ones/par_count_ones/iter, slice-backed reads equal the Vec<bool> model; get/Index/set and atomic get/set/swap/Index at len, len+1, MAX panic and leave the storage unchanged; on every transition: return values equal the model's and storage bits outside the written elements are unchanged",
+    assumptions=STRICT + ["state key = (backing words, len); Vec capacity is the only hidden field and is not observable through the API except via contents"],
+    mc_note=MC_NOTE,
+)
+LEVEL_TEXT["C06"] = "Explicit-state model checking of the real BitVec against Vec<bool>: every history up to the depth bound over a boundary alphabet is executed on the implementation, all observations compared in every reached state. Bounded exhaustive over histories is the right level: the defects at stake are word-boundary and stale-bit interactions between a few consecutive operations."
+TECHNIQUE["C06"] = "explicit-state BFS over operation histories executed on the real object, observational equivalence with a reference model in every state"
+
+PROPS["C14"] = dict(
+    level="model_checking",
+    engine="E2",
+    parts=[dict(bin="e2_bitvec", opts={"prop": "C14", "depth": 3}, tag="dirty-q", tiers=["quick"]),
+           dict(bin="e2_bitvec", opts={"prop": "C14", "depth": 5}, tag="dirty-t", tiers=["thorough"]),
+           dict(bin="e2_bfv", opts={"prop": "C14", "depth": 3}, tag="dirty-q", tiers=["quick"]),
+           dict(bin="e2_bfv", opts={"prop": "C14", "depth": 4}, tag="dirty-t", tiers=["thorough"])],
+    rule="BFS over operation histories from dirty from_raw_parts seeds (garbage beyond len: all ones / alternating / single 1 right after the last valid bit / garbage only in spare words; 0-2 spare words); unit = (seed, first operation)",
+    alphabet="same operation alphabet as C06/C05, started from dirty storage",
+    bound={"quick": "all histories of <= 3 operations from every dirty seed", "thorough": "all histories of <= 5 operations"},
+    oracle="readers: every observation of C06/C05 equals the clean model in every state; writers: on every transition the raw words before/after differ only inside the elements the operation is documented to write (growth: the new elements; shrink: the discarded elements)",
+    assumptions=STRICT,
+    mc_note=MC_NOTE,
+)
+LEVEL_TEXT["C14"] = "Explicit-state model checking from dirty seed states: the state key contains the stale bits and spare words, every read observation is compared with the clean model in every reached state and a footprint invariant on raw storage is checked on every transition."
+TECHNIQUE["C14"] = "explicit-state BFS from dirty from_raw_parts seeds, read-equivalence in every state and raw-storage footprint invariant on every transition"
+
+PROPS["C05"] = dict(
+    level="model_checking",
+    engine="E2",
+    parts=[dict(bin="e2_bfv", opts={"prop": "C05"}, tag="clean")],
+    rule="BFS over operation histories, one search per (word type, bit width, seed, first operation); a unit is non-trivial when its start state has a partially used last word, spare words, or an element crossing a word boundary",
+    alphabet="push(v) pop set(i,v) resize(n,v) clear extend([v,v']) reset par_reset apply_in_place(x+1 & mask); set through Box, &mut [W], AtomicBitFieldVec (Vec and Box); atomic reset/par_reset; values {0,1,top bit,mask>>1,mask,0101..}; indices {0,1,k-1,k,k+1,len-1}, lengths {0,1,k-1,k,k+1,2k+1}, k = first element crossing a word; rejected: set/get at len,len+1,MAX/2, iter_from(len+1), set/push/resize/set_atomic with mask+1 and MAX; seeds new / new+set(pattern) / with_capacity+push / new_unaligned / with_capacity / from_slice",
+    bound={"quick": "all histories of <= 3 operations; W in {u8,u16,usize} x 6 widths each (incl. 0 and W::BITS)", "thorough": "all histories of <= 4 operations; u8 and u16 all widths, u32 10 widths, u64/usize 16 widths, u128 7 widths"},
+    oracle="in every state: len, bit_width, mask, get(i) all i, iter, into_iter, iter_from(j) all j with exact len()/size_hint before every next, forward unchecked iterator from every j, reverse unchecked iterator from every j, ==/!= against fresh equal / one-element-different / other-width / longer / garbage-beyond-len vectors, from_slice into u128 and u8, boxed and slice-backed reads, atomic reads; rejected operations panic and leave raw parts unchanged; on every transition: return value, callback sequence of apply_in_place, footprint on raw words",
+    assumptions=STRICT + ["state key = (backing words, len) per (W, width)"],
+    mc_note=MC_NOTE,
+)
+LEVEL_TEXT["C05"] = "Explicit-state model checking of the real BitFieldVec<W> against Vec<W> for every word type and a boundary set of widths (all widths for u8/u16 in thorough): every history up to the depth bound is executed on the implementation and all observations are compared in every reached state."
+TECHNIQUE["C05"] = "explicit-state BFS over operation histories executed on the real object per (word type, bit width), observational equivalence with a reference model in every state"
